@@ -15,6 +15,7 @@
 package sched
 
 import (
+	"runtime"
 	"sync"
 	"time"
 
@@ -55,9 +56,14 @@ type Stats struct {
 	PerTask          [MaxTasks]int64
 	Over, Deadlock   bool
 	Stuck            bool // no yield point was executed for StuckAfter of wall time: a task is blocked for real
-	IHash            uint64
-	SwitchTrace      []uint32 // task<<16 | site, first traceCap switches
-	SiteHitDuring    int      // PolSite: whether the chosen site visit happened
+	// StuckArtifact: at that moment some other live task was parked at an ordinary yield point,
+	// i.e. runnable: the baton holder sits in a blocking operation the instrumenter does not
+	// rewrite and the task that would release it never gets the baton. A limit of the
+	// simulator, not a finding about the tree.
+	StuckArtifact bool
+	IHash         uint64
+	SwitchTrace   []uint32 // task<<16 | site, first traceCap switches
+	SiteHitDuring int      // PolSite: whether the chosen site visit happened
 }
 
 var st struct {
@@ -65,6 +71,7 @@ var st struct {
 	n             int32
 	cur           int32
 	alive         [MaxTasks]bool
+	parkedBlocked [MaxTasks]bool // the task gave the baton away because it could not proceed
 	blockedStreak int64
 	quantum       int64
 	yields        int64
@@ -87,6 +94,9 @@ var st struct {
 	taskG   [MaxTasks]uintptr
 	mainG   uintptr
 	foreign int64 // yield points executed by goroutines the scheduler does not control
+	// goroutines that existed when the scheduler was installed (harness only)
+	baseGoroutines int
+	foreignSeen    bool
 	// solo mode
 	solo       bool
 	soloYields int64
@@ -237,41 +247,88 @@ func decide(site int) (int32, int32, bool, bool) {
 	if next == me {
 		return me, me, false, false
 	}
+	st.parkedBlocked[me] = false
 	st.cur = next
 	noteSwitch(me, next, site)
 	return me, next, true, false
 }
 
 //go:norace
-func decideBlocked(site int) (int32, int32, bool, bool, bool) {
+func decideBlocked(site int) (int32, int32, bool, bool, bool, bool) {
 	if !st.active {
-		return 0, 0, false, false, false
+		return 0, 0, false, false, false, false
 	}
 	if getg() != st.taskG[st.cur] {
 		st.foreign++
-		return 0, 0, false, false, false // falls back to a real blocking operation
+		return 0, 0, false, false, false, false // falls back to a real blocking operation
 	}
 	if st.over {
-		return 0, 0, false, true, true
+		return 0, 0, false, true, true, false
 	}
 	st.yields++
 	st.perTask[st.cur]++
 	st.blockedStreak++
 	if st.yields > st.stepBudget {
 		st.over = true
-		return 0, 0, false, true, true
+		return 0, 0, false, true, true, false
 	}
 	me := st.cur
 	next := pickAlive(me)
-	if next < 0 || st.blockedStreak > 20000 {
+	slow := false
+	if foreignPossible() {
+		// Goroutines the scheduler does not own exist (a worker pool inside the library, a
+		// producer): they may yet complete the operation, so "all tasks are waiting" is not a
+		// deadlock. A lone task blocks for real; several keep passing the baton round, slowly
+		// once that has gone on for a while. Such polls are not steps of the system (they do not
+		// count against the step budget, nor as progress: if nothing else happens for a minute
+		// the monitor in Run declares the pass stuck).
+		if next < 0 {
+			st.yields--
+			st.perTask[st.cur]--
+			return 0, 0, false, false, false, false
+		}
+		if st.blockedStreak > 20000 {
+			st.yields--
+			st.perTask[st.cur]--
+			slow = true
+		}
+	} else if next < 0 || st.blockedStreak > 20000 {
 		st.over = true
 		st.deadlock = true
-		return 0, 0, false, true, true
+		return 0, 0, false, true, true, false
 	}
 	st.quantum = drawQuantum()
+	st.parkedBlocked[me] = true
 	st.cur = next
-	noteSwitch(me, next, site)
-	return me, next, true, false, true
+	if !slow {
+		noteSwitch(me, next, site)
+	}
+	return me, next, true, false, true, slow
+}
+
+// foreignPossible reports whether goroutines exist that are neither harness nor tasks.
+// The goroutine of a task that has just finished lingers for a moment: a surplus is only
+// believed when it survives a few short sleeps, and is then remembered for this pass.
+//
+//go:norace
+func foreignPossible() bool {
+	if st.foreign > 0 || st.foreignSeen {
+		return true
+	}
+	expected := st.baseGoroutines + 1
+	for i := int32(0); i < st.n; i++ {
+		if st.alive[i] {
+			expected++
+		}
+	}
+	for attempt := uint(0); attempt < 4; attempt++ {
+		if runtime.NumGoroutine() <= expected {
+			return false
+		}
+		time.Sleep(time.Duration(100<<(attempt*2)) * time.Microsecond)
+	}
+	st.foreignSeen = true
+	return true
 }
 
 func hook(site int) {
@@ -289,12 +346,15 @@ func hook(site int) {
 }
 
 func blockedHook(site int) bool {
-	me, next, sw, unwind, active := decideBlocked(site)
+	me, next, sw, unwind, active, slow := decideBlocked(site)
 	if !active {
 		return false
 	}
 	if unwind {
 		panic(Sentinel{"deadlock or step budget"})
+	}
+	if slow {
+		time.Sleep(20 * time.Microsecond)
 	}
 	if sw {
 		wake(next)
@@ -320,7 +380,11 @@ func Blocked() bool { return blockedHook(-1) }
 func Install() {
 	verifhook.Hook = hook
 	verifhook.BlockedHook = blockedHook
+	setBase(runtime.NumGoroutine())
 }
+
+//go:norace
+func setBase(n int) { st.baseGoroutines = n }
 
 // ---- solo mode: count the yields of a closure run alone -------------------------------
 
@@ -365,6 +429,8 @@ func setup(n int, cfg Config) {
 	st.cfg = cfg
 	st.rng = cfg.Seed
 	st.blockedStreak = 0
+	st.parkedBlocked = [MaxTasks]bool{}
+	st.foreignSeen = false
 	st.yields, st.switches = 0, 0
 	st.perTask = [MaxTasks]int64{}
 	st.stepBudget = cfg.StepBudget
@@ -464,6 +530,7 @@ func Run(cfg Config, tasks []func()) ([]interface{}, Stats) {
 				// unwound; the caller must report and let the process end.
 				s := teardown()
 				s.Stuck = true
+				s.StuckArtifact = runnableBesidesHolder()
 				return pans, s
 			}
 		}
@@ -476,6 +543,16 @@ var StuckAfterTicks = 30
 
 //go:norace
 func progress() int64 { return st.yields + st.foreign }
+
+//go:norace
+func runnableBesidesHolder() bool {
+	for i := int32(0); i < st.n; i++ {
+		if i != st.cur && st.alive[i] && !st.parkedBlocked[i] {
+			return true
+		}
+	}
+	return false
+}
 
 // Coverage returns, per site, how often it was executed / used as a switch point in
 // concurrent mode since process start.
